@@ -1355,26 +1355,49 @@ func ruleDesugar(c *Ctx) {
 		c.R.Anchor("yae.Expr.CompileExpr")
 	}
 	if msi := c.FuncDecl("yae", "Expr.makeSureInit"); msi != nil {
-		top := false
+		// a top-level statement of makeSureInit (i.e. not under a configuration flag) mentions trans.Desugar as a value, directly
+		// or inside a method of the engine it calls (initTrans): the desugarer is registered whenever the engine is initialised
+		mentions := func(n ast.Node) bool {
+			found := false
+			ast.Inspect(n, func(x ast.Node) bool {
+				if id, ok := x.(*ast.SelectorExpr); ok {
+					if o := c.objOf(id.Sel); o != nil && qual(o) == "trans.Desugar" {
+						found = true
+					}
+				}
+				return !found
+			})
+			return found
+		}
+		top, registered := false, false
 		for _, st := range msi.Body.List {
-			if es, ok := st.(*ast.ExprStmt); ok {
-				if ce, ok := es.X.(*ast.CallExpr); ok && c.calleeName(ce) == "yae.Expr.initTrans" {
-					top = true
+			es, ok := st.(*ast.ExprStmt)
+			isAssign := false
+			if as, ok2 := st.(*ast.AssignStmt); ok2 {
+				isAssign = true
+				if mentions(as) {
+					top, registered = true, true
+				}
+			}
+			if !ok || isAssign {
+				continue
+			}
+			ce, ok := es.X.(*ast.CallExpr)
+			if !ok {
+				continue
+			}
+			if mentions(ce) {
+				top, registered = true, true
+				continue
+			}
+			if f, ok := c.calleeObj(ce).(*types.Func); ok && f.Pkg() != nil && short(f.Pkg().Path()) == "yae" {
+				if d := c.declOf(f); d != nil && d.Body != nil && mentions(d.Body) {
+					top, registered = true, true
 				}
 			}
 		}
-		c.R.Check(top, "yae.Expr.makeSureInit", "DS-6 the desugarer is installed unconditionally", msi.Pos(), "initTrans() is a top-level statement of makeSureInit", "the desugarer is only installed under a configuration flag: an engine without built-ins type-checks and compiles sugar nodes (unreachable branch)")
-	}
-	if it := c.FuncDecl("yae", "Expr.initTrans"); it != nil {
-		okT := false
-		for _, call := range c.callsTo(it.Body, "yae.Expr.RegisterTranslator") {
-			if len(call.Args) == 1 {
-				if o := c.objOf(call.Args[0]); o != nil && qual(o) == "trans.Desugar" {
-					okT = true
-				}
-			}
-		}
-		c.R.Check(okT, "yae.Expr.initTrans", "DS-6 Desugar is the registered translator", it.Pos(), "sugar is removed before checking", "Desugar is not registered as a translator")
+		c.R.Check(top, "yae.Expr.makeSureInit", "DS-6 the desugarer is installed unconditionally", msi.Pos(), "a top-level statement of makeSureInit registers trans.Desugar", "the desugarer is only installed under a configuration flag (or not at all): an engine without built-ins type-checks and compiles sugar nodes (unreachable branch)")
+		c.R.Check(registered, "yae.Expr.initTrans", "DS-6 Desugar is the registered translator", msi.Pos(), "sugar is removed before checking", "Desugar is not registered as a translator")
 	}
 }
 
